@@ -25,6 +25,8 @@ import (
 
 var provMu sync.Mutex
 
+var statTies, statOrderCmp, statSets int // evidence counters (oracle runs single-threaded)
+
 func init() {
 	logging.Logger = zap.NewNop()
 	logging.N2n = zap.NewNop()
@@ -36,10 +38,16 @@ type world struct {
 	pool *node.Pool
 }
 
-func newWorld(nrepl int) *world {
+var chainPool = sync.Pool{New: func() interface{} {
 	provMu.Lock() // chain.Provider writes the global configuration object
-	c := chain.Provider().(*chain.Chain)
-	provMu.Unlock()
+	defer provMu.Unlock()
+	return chain.Provider().(*chain.Chain)
+}}
+
+// newWorld: a chain object (constructing one is expensive, so they are recycled between cases; everything the
+// operations read — the configuration and the magic block with its pools — is replaced here).
+func newWorld(nrepl int) *world {
+	c := chainPool.Get().(*chain.Chain)
 	c.ChainConfig = chain.NewConfigImpl(&chain.ConfigData{NumReplicators: nrepl})
 	mb := block.NewMagicBlock()
 	mb.Miners = node.NewPool(node.NodeTypeMiner)
@@ -91,6 +99,7 @@ func showNodes(ok bool, nodes []*node.Node) string {
 
 func impl(ops []string) []string {
 	w := newWorld(0)
+	defer func() { chainPool.Put(w.c) }()
 	scorer := node.NewHashPoolScorer(encryption.NewXORHashScorer())
 	outs := make([]string, len(ops))
 	sharder := func(id string) *node.Node {
@@ -117,6 +126,7 @@ func impl(ops []string) []string {
 				if !ok || n != int64(int32(n)) {
 					return
 				}
+				chainPool.Put(w.c)
 				w = newWorld(int(n))
 				outs[i] = "ok"
 			case f[0] == "add" && len(f) == 3:
@@ -449,6 +459,10 @@ func oracle(ops, outs []string) *corr.Violation {
 				}
 				got[v] = true
 			}
+			statSets++
+			if len(got) > int(n) {
+				statTies++
+			}
 			if len(got) < int(n) {
 				return mk("fewer-than-n", fmt.Sprintf("op %d %q: %d replicators, configured %d, %d sharders", i, op, len(got), n, len(sorted)))
 			}
@@ -479,6 +493,9 @@ func oracle(ops, outs []string) *corr.Violation {
 				continue
 			}
 			for q, ans := range x.answers {
+				if _, ok := y.answers[q]; ok {
+					statOrderCmp++
+				}
 				if ans2, ok := y.answers[q]; ok && ans != ans2 {
 					return mk("order-dependent", fmt.Sprintf("the same sharder set added in another order answers %q with %q instead of %q", q, ans2, ans))
 				}
@@ -498,6 +515,9 @@ func main() {
 				return 12000
 			}
 			return 1200
+		},
+		Extra: func() map[string]interface{} {
+			return map[string]interface{}{"replicator_sets_checked": statSets, "sets_with_tie_at_cutoff": statTies, "answers_compared_across_insertion_orders": statOrderCmp}
 		},
 		Fixed: [][]string{
 			{"new 2", "pos", "scores 00", "isbs 00 " + a, "repl 00 " + a, "intop 00 " + a + " 0", "intopn 00 " + a + " 0", "intop 00 " + a + " -1"},
